@@ -103,6 +103,19 @@ def proc_msg(tag, gid_val):
     return Agg('struct', 'mdk_storage_traits::messages::types::ProcessedMessage', None, [f[n] for n in names], names)
 
 
+def _same_value(a, b):
+    """the value read back is the value stored (same opaque value, or the same enum variant with the same payload)"""
+    if a is b:
+        return True
+    if isinstance(a, Opaque) and isinstance(b, Opaque):
+        return a.uid == b.uid and not a.over and not b.over
+    if isinstance(a, Agg) and isinstance(b, Agg):
+        return a.variant == b.variant and len(a.fields) == len(b.fields) and all(_same_value(x, y) for x, y in zip(a.fields, b.fields))
+    if z3.is_expr(a) and z3.is_expr(b):
+        return a.eq(b)
+    return False
+
+
 @guard
 def invalidation(tier, oid='O4', prefix='O4'):
     """memory invalidate_*_after_epoch select exactly the contract's records"""
@@ -120,7 +133,8 @@ def invalidation(tier, oid='O4', prefix='O4'):
     for a, b in itertools.combinations(allm, 2):
         st.pc.append(mfield(a, 'id').fields[0] != mfield(b, 'id').fields[0])
     caches = {'groups_cache': MapV([[G, group('g0', G)], [H, group('h0', H)]], 'LruCache'),
-              'messages_by_group_cache': MapV([[G, MapV([[mfield(m, 'id'), m] for m in ms], 'HashMap')], [H, MapV([[mfield(m, 'id'), m] for m in hs], 'HashMap')]], 'LruCache'),
+              # the store holds COPIES: the originals in ms / hs stay as the reference values the post-state is compared with, whichever path mutates the store in place
+              'messages_by_group_cache': MapV([[G, MapV([[mfield(m, 'id'), copy_msg(m)] for m in ms], 'HashMap')], [H, MapV([[mfield(m, 'id'), copy_msg(m)] for m in hs], 'HashMap')]], 'LruCache'),
               'messages_cache': MapV([[mfield(m, 'id'), copy_msg(m)] for m in allm], 'LruCache')}
     sref = storage(st, caches)
     paths = ob.explore(f, [sref, Ref(st.temp(G), ()), e], st)
@@ -157,8 +171,8 @@ def invalidation(tier, oid='O4', prefix='O4'):
                                'a message of the group with epoch > e is not marked EpochInvalidated (in the per-group map or the by-id cache)', p)
                     ob.require(any(ob.eng.prove(p, M.val_eq(ob.eng, i, mfield(om, 'id')))[0] for i in ids), f'{prefix}/memory-id-not-returned', 'an invalidated message id is not returned', p)
                 else:
-                    ob.require(stv is mfield(om, 'state') or (isinstance(stv, Opaque) and stv.uid == mfield(om, 'state').uid and not stv.over), f'{prefix}/memory-wrongly-invalidated',
-                               f'a message that must stay valid (other group, epoch None or <= e) had its state rewritten to {vname(stv)}', p)
+                    ob.require(_same_value(stv, mfield(om, 'state')), f'{prefix}/memory-wrongly-invalidated',
+                               f'a message that must stay valid (other group, epoch None or <= e) had its state rewritten to {vname(stv) or repr(stv)[:80]} (was {repr(mfield(om, "state"))[:80]})', p)
                     ob.require(not any(ob.eng.prove(p, M.val_eq(ob.eng, i, mfield(om, 'id')))[0] for i in ids), f'{prefix}/memory-extra-id', 'id of an untouched message is returned', p)
         ob.require(len(ids) == n_sel, f'{prefix}/memory-id-count', f'{len(ids)} ids returned for {n_sel} invalidated messages', p)
     # ---- processed messages
